@@ -14,5 +14,7 @@ impl<T> RefCell<Option<T>> {
     pub fn take(&mut self) -> (r: Option<T>) ensures r == old(self).v, final(self).v == None::<T> {
         let mut x = None; std::mem::swap(&mut self.v, &mut x); x
     }
+    /// rule R30: the content moved out for the scope of a RefMut is moved back when the RefMut is dropped
+    pub fn put_back(&mut self, x: Option<T>) ensures final(self).v == x { self.v = x; }
 }
 
